@@ -10,9 +10,10 @@ confirm)
   git -C "$wt" diff -- src > "$out/patch.diff"
   cp "$wt/tests/seeded_demo.rs" "$out/seeded_demo.rs"
   export CARGO_TARGET_DIR="$wt/target" CARGO_NET_OFFLINE=true
+  FEAT=""; grep -q 'feature = "verif-hooks"' "$out/seeded_demo.rs" && FEAT="--features verif-hooks"
   cd "$wt" || exit 2
   echo "== demo WITH change (must fail)"
-  cargo test --offline --test seeded_demo >"$out/demo_with.log" 2>&1; with=$?
+  cargo test --offline $FEAT --test seeded_demo >"$out/demo_with.log" 2>&1; with=$?
   grep -E "^test result|^test .* FAILED" "$out/demo_with.log" | head -5
   echo "== existing suite WITH change (must pass)"
   mv tests/seeded_demo.rs /tmp/seeded_demo_$$.rs
@@ -21,7 +22,7 @@ confirm)
   mv /tmp/seeded_demo_$$.rs tests/seeded_demo.rs
   echo "== demo WITHOUT change (must pass)"
   git stash push -q -- src
-  cargo test --offline --test seeded_demo >"$out/demo_without.log" 2>&1; without=$?
+  cargo test --offline $FEAT --test seeded_demo >"$out/demo_without.log" 2>&1; without=$?
   grep -E "^test result" "$out/demo_without.log"
   git stash pop -q
   echo "with=$with suite=$suite without=$without"
